@@ -91,5 +91,21 @@ CHECKS["C09"] = {
     "level_note": "Trusts synctest's fake clock and the fake targets' logs.",
 }
 
+CHECKS["C10"] = {
+    "level": "exploration",
+    "rule": "TestVF_C10: 1-10 generated cookie values (cookie-octet alphabet, 1-64 bytes, near-duplicates, one-bit neighbours) observed "
+            "through the real router at EVERY percentage 0..100 (exhaustive range), allowlists of 0-3 values at 5 percentages, "
+            "composite Cookie headers (several pairs, look-alike names, duplicates) and raw malformed headers; metamorphic oracles "
+            "(sticky, monotone, 100% includes all, allowlist, opt-in only, no split / before targets / after stop => active), no hash "
+            "re-implementation. TestVF_C10_History: generated histories of rollout deploy/set/stop/redeploy/restart with the side of a "
+            "fixed cookie set compared with a table measured on a pristine service. TestVF_C10_Share: 4000 seed-derived distinct "
+            "values per drawn percentage, included share within 6 sigma (binomial) of p/100. Non-trivial = a value that changes "
+            "side across percentages / a history with a restart or redeploy between observations / 0<p<100. Distinct by plan hash.",
+    "layers": [L("TestVF_C10", 150, 2000), L("TestVF_C10_History", 400, 5000), L("TestVF_C10_Share", 300, 3000)],
+    "technique": "property-based testing (rapid): metamorphic relations over generated cookie values x all 101 percentages; stateful histories against a measured side table; statistical share test",
+    "level_text": "Bounded random exploration over values and histories; the percentage range is enumerated completely for every generated value.",
+    "level_note": "Share tolerance 6 sigma + 1/n (stated in the failure message); trusts the harness world.",
+}
+
 ALL_IDS = ["C%02d" % i for i in range(1, 21)]
 NOT_APPLICABLE = {pid: "check not built yet (work in progress; see DESIGN.md section 8 for the order of work)" for pid in ALL_IDS if pid not in CHECKS}
